@@ -277,6 +277,7 @@ def inputs_from_trace(trace, names):
 def sat_run(d, gb, ob, solver, timeout, prop=None, cancel=None):
     cmd = ['cbmc', gb] + cbmc_base(ob) + ['--json-ui', '--trace']
     if solver == 'cadical': cmd += ['--sat-solver', 'cadical']
+    elif solver == 'kissat': cmd += ['--external-sat-solver', 'kissat']
     elif solver == 'z3': cmd += ['--z3']
     elif solver == 'cvc5': cmd += ['--cvc5']
     if prop: cmd += ['--property', prop]
@@ -286,6 +287,9 @@ def sat_run(d, gb, ob, solver, timeout, prop=None, cancel=None):
     pr = parse_cbmc_json(out)
     if pr is None or pr[0] is None:
         return 'error', (out[-1500:] + err[-500:]), dt
+    bad = [r for r in pr[0] if r.get('status') not in ('SUCCESS', 'FAILURE')]
+    if bad:
+        return 'error', 'property status %s from back end %s' % (bad[0].get('status'), solver), dt
     return 'done', pr[0], dt
 
 
@@ -441,7 +445,7 @@ def decide(d, ob, src='h.c', budget=None, log=None):
             notes.append('intblast timeout/cancelled')
         return None
 
-    strategies = [lambda: strat_sat('minisat'), lambda: strat_sat('cadical')]
+    strategies = [lambda: strat_sat('minisat'), lambda: strat_sat('cadical'), lambda: strat_sat('kissat')]
     if use_ib: strategies.append(strat_ib)
     answer = None
     with cf.ThreadPoolExecutor(len(strategies)) as ex:
